@@ -591,8 +591,8 @@ def _run(case, seed, *, ctor_seed=None, n_jobs=1, verbose=False, folder=None, se
     elif case.get("loss") == "fourier":
         from black_it.loss_functions.fourier import FourierLoss
         loss = FourierLoss()
-    cal, *_ = e2e.make_calibrator(cfg, model=e2e.pure_model, loss=loss,
-                                  samplers=None if rl else samplers, scheduler=scheduler)
+    cal, *_ = e2e.make_calibrator(cfg, model=e2e.clamping_model if case.get("model") == "clamp" else e2e.pure_model,
+                                  loss=loss, samplers=None if rl else samplers, scheduler=scheduler)
     ret = None
     segments = segments or [case["nb"]]
     with warnings.catch_warnings():
@@ -613,6 +613,10 @@ def _c01_cases(tier, seed):
         yield {"lineup": _mixed_lineup(rnd, i), "E": rnd.choice([1, 2]), "nb": rnd.randint(3, 5), "seed": rnd.randrange(10 ** 6),
                "dims": rnd.choice([1, 2, 3]), "loss": rnd.choice([None, None, "msm", "fourier"]),
                "variant": ["twin", "ctor_seed", "verbose", "folder", "n_jobs", "rl"][i % 6]}
+    # a model that writes into the parameter vector it is handed: n_jobs = 1 (same process) against workers
+    for E in (1, 2):
+        yield {"lineup": [("halton", 3), ("random", 2), ("best", 2)], "E": E, "nb": 3, "seed": rnd.randrange(10 ** 6),
+               "dims": 2, "loss": None, "variant": "n_jobs", "model": "clamp"}
     # boundary seed 0 with differing constructor seeds, and sampler OBJECTS reused by a second calibrator
     yield {"lineup": [("halton", 3), ("best", 2), ("random", 2)], "E": 1, "nb": 4, "seed": 0, "dims": 2, "loss": None,
            "variant": "ctor_seed"}
